@@ -490,8 +490,95 @@ def run(ctx):
         except Exception:
             ctx.judged("construct-raises", "dna")
 
+    def construction_from_columns(case):
+        # tables built from the columns of other tables (or from arrays held in another alphabet): each column converted to its declared type, the sources unchanged
+        r = random.Random(case["seed"])
+        from bionumpy.encodings import alphabet_encoding as ae
+        n_ = r.choice([1, 1, 2, 3, 5])
+        k_ = r.randint(1, 6)
+        equal_ = r.random() < 0.6
+        enc_name = r.choice(["ACGTEncoding", "ACGTnEncoding", "AminoAcidEncoding", "ACTGEncoding", None])
+        letters = {"ACGTEncoding": "ACGT", "ACGTnEncoding": "ACGTN", "AminoAcidEncoding": "ACDEFGHIK", "ACTGEncoding": "ACTG", None: "ACGTxyz_09"}[enc_name]
+        texts = ["".join(r.choice(letters) for _ in range(k_ if equal_ else r.randint(1, 6))) for _ in range(n_)]
+        col = bnp.as_encoded_array(texts, getattr(ae, enc_name)) if enc_name else bnp.as_encoded_array(texts)
+        if r.random() < 0.3 and n_ > 1:
+            keep = [r.random() < 0.7 for _ in range(n_)]
+            if any(keep):
+                col = col[np.array(keep)]
+                texts = [t_ for t_, k in zip(texts, keep) if k]
+        m_ = len(texts)
+        shape_key = "%s:%s" % ("held-in-an-alphabet" if enc_name else "plain-text", "rows-of-equal-length" if len(set(map(len, texts))) == 1 else "ragged")
+        for target in ("identifier", "text"):
+            try:
+                if target == "identifier":
+                    t = dt.Interval(col, np.arange(m_), np.arange(m_) + 1)
+                    got = [str(x) for x in t.chromosome.tolist()]
+                    rows_ = [str(e.chromosome) for e in (t[::-1].tolist() if r.random() < 0.5 else t.tolist()[::-1])]
+                else:
+                    t = dt.Bed6(["c"] * m_, np.arange(m_), np.arange(m_) + 1, col, [0] * m_, ["+"] * m_)
+                    got = [str(x) for x in t.name.tolist()]
+                    rows_ = [str(e.name) for e in t.tolist()][::-1]
+            except Exception:
+                ctx.judged("construct-raises", ("cols", target, shape_key, m_))
+                continue
+            ctx.check("construct-converts", got == texts and rows_ == texts[::-1], "construct/%s-column-from-encoded-rows:%s" % (target, shape_key),
+                      "%s column built from %s rows %r reads %r" % (target, enc_name or "plain", texts, got), {"encoding": enc_name, "texts": texts, "got": got, "rows": rows_}, ("cols", target, enc_name, tuple(texts)))
+        # a table of reads with qualities built from the columns of an alignment table (whole or a selection): qualities are the numbers of the text, the source reads as before
+        names = ["r%d" % i for i in range(n_)]
+        seqs = ["".join(r.choice("ACGT") for _ in range(r.randint(1, 6))) for _ in range(n_)]
+        quals = ["".join(chr(r.choice([33, 35, 53, 73, 126, r.randint(33, 126)])) for _ in s_) for s_ in seqs]
+        src_kind = r.choice(["sam", "fastq-table"])
+        if src_kind == "sam":
+            src = dt.SAMEntry(names, [0] * n_, ["chr1"] * n_, list(range(1, n_ + 1)), [60] * n_, ["%dM" % len(s_) for s_ in seqs], ["="] * n_, [0] * n_, [0] * n_, seqs, quals, [""] * n_)
+            snap = lambda: [(str(e.name), str(e.sequence), str(e.quality)) for e in src.tolist()]
+        else:
+            src = dt.SequenceEntryWithQuality(names, seqs, quals)
+            snap = lambda: [(str(e.name), str(e.sequence), list(map(int, e.quality))) for e in src.tolist()]
+        before = snap()
+        lo = r.randint(0, n_ - 1) if r.random() < 0.5 else 0
+        part = src[lo:] if lo else src
+        try:
+            built = dt.SequenceEntryWithQuality(part.name, part.sequence, part.quality)
+            got_q = [list(map(int, e.quality)) for e in built.tolist()]
+            ok_q = got_q == [[ord(ch) - 33 for ch in q_] for q_ in quals[lo:]]
+            ctx.check("construct-converts", ok_q, "construct/quality-column-from-another-table:%s" % src_kind, "qualities of a table built from columns of a %s table read %r, the text says %r" % (src_kind, got_q[:3], quals[lo:][:3]),
+                      {"source": src_kind, "qualities": quals, "from_row": lo, "got": got_q}, ("qcol", src_kind, tuple(quals), lo))
+        except Exception:
+            ctx.judged("construct-raises", ("qcol", src_kind, lo))
+        after = snap()
+        ctx.check("operands-unchanged", after == before, "construct/source-table-changed-by-building-another-from-its-columns:%s%s" % (src_kind, ":row-selection" if lo else ""),
+                  "the %s table whose columns were handed to a constructor read %r before and %r afterwards" % (src_kind, before[:2], after[:2]), {"source": src_kind, "from_row": lo, "before": [list(map(str, x)) for x in before], "after": [list(map(str, x)) for x in after]}, ("qsrc", src_kind, tuple(quals), lo))
+        # add_fields with the caller's type map: the map is the caller's and is handed in again for the next table, whose new columns may hold other kinds of values
+        tmap = {"seq": bnp.DNAEncoding} if r.random() < 0.7 else {}
+        tmap_before = dict(tmap)
+        def mk_vals(kind_):
+            return {"int": [r.randint(0, 99) for _ in range(2)], "str": [r.choice(["x", "yy", "ab"]) for _ in range(2)], "float": [r.choice([0.5, 1.25, 3.5]) for _ in range(2)]}[kind_]
+        kinds = [r.choice(["int", "str", "float"]) for _ in range(2)]
+        first_fails = r.random() < 0.3
+        outcomes = []
+        for step, kind_ in enumerate(kinds):
+            vals = mk_vals(kind_)
+            base_ = dt.SequenceEntry(["s1", "s2"], ["ACGT", "GG"])
+            new_ = {"seq": ["ACG", "TT"], "label": list(vals) + ([vals[0]] if (first_fails and step == 0) else [])}
+            def run_(map_):
+                try:
+                    res_ = base_.add_fields({k: list(v) for k, v in new_.items()}, field_type_map=map_)
+                    return [(str(e.name), str(e.seq), e.label.item() if isinstance(e.label, np.generic) else (e.label.to_string() if hasattr(e.label, "to_string") else e.label)) for e in res_.tolist()]
+                except Exception as e:
+                    return "raised"
+            got_shared = run_(tmap)
+            got_fresh = run_(dict(tmap_before))
+            ctx.check("construct-converts", str(got_shared) == str(got_fresh), "add_fields/result-depends-on-earlier-calls-with-the-same-type-map", "add_fields of a %s column with the caller's type map (call %d with this map; earlier kinds %r) gives %r, with a fresh copy of the map %r" % (kind_, step + 1, kinds[:step], got_shared, got_fresh),
+                      {"kinds": kinds, "step": step, "first_call_refused": first_fails, "with_shared_map": str(got_shared), "with_fresh_map": str(got_fresh)}, ("tmap", tuple(kinds), step, first_fails, bool(tmap_before)))
+            if got_fresh != "raised":
+                ctx.check("construct-converts", [x[2] for x in got_fresh] == vals, "add_fields/values-differ", "add_fields label column %r reads %r" % (vals, got_fresh), {"values": list(map(str, vals)), "got": str(got_fresh)}, ("tmapv", kind_))
+        ctx.check("operands-unchanged", tmap == tmap_before, "add_fields/callers-type-map-changed", "the field_type_map handed to add_fields was %r before and %r after" % (sorted(tmap_before), sorted(tmap)), {"before": sorted(tmap_before), "after": sorted(tmap)}, ("tmapd", tuple(kinds), bool(tmap_before)))
+        ctx.count("construction_from_columns")
+
     for i in range(ctx.share(ctx.pick(6000, 80000))):
         ctx.run_case(program, {"seed": rng.randrange(2 ** 40)})
+    for i in range(ctx.share(ctx.pick(400, 6000))):
+        ctx.run_case(construction_from_columns, {"seed": rng.randrange(2 ** 40)})
     if ctx.shard == 0:
         ctx.run_case(construction, {"seed": 1})
     ctx.sample({"type": "Bed6", "rows": [["chr1", 3, 9, "a", 5, "+"], ["chr2", 0, 4, "b", 0, "-"]], "program": [["mask", [True, False]], ["concat", [["chrX", 1, 2, "c", 1, "+"]]], "sort_by start", "pandas"]})
